@@ -87,10 +87,14 @@ static SV AbstractPath(const std::string & path, const World & w)    // "/host/i
 static mj::Value JPath(const SV & p) {return JStrs(p);}
 static std::string PathKey(const SV & p) {std::string s; for (size_t i=0; i<p.size(); i++) {s += '/'; s += p[i];} return s;}
 
+static std::string g_second = "b";     // the second user name (universe "bs": a followed by a backslash)
 // the monitor's own reading of the clause table (mirrors MatchSet of Traversal.tla; TraversalTrace / RouteTrace check the real StringMatcher against the same table)
 static bool TokMatch(const std::string & t, const std::string & n)
 {
-   if ((t == "*")||(t == "?")) return true;
+   if (t == "*") return true;
+   if (t == "?") return n.size() == 1;
+   if ((t == "a\\\\")||(t == "a\\\\*")) return n == "a\\";
+   if (t == "x\\\\,a") return n == "a";
    if (t == "1,0")   return (n == "0")||(n == "1");
    if (t == "2,1")   return (n == "1")||(n == "2");
    if (t == "a,c")   return n == "a";
@@ -223,17 +227,20 @@ static void BuildMenu()
    P3("*","0","a") P3("*","0","*") P3("*","1,0","b,a") P3("h","*","b") P3("h","<0-1>","?") P3("*","~0","a")
    for (int i=0; i<15; i++) P4("*","*",C5[i/3],D3[i%3])
    P4("*","*","\\a","b") P4("*","*","?","?") P4("*","0","a","*") P4("*","0","*","b") P4("h","1,0","a","a") P4("*","<0-1>","(a|c)","a") P4("*","*","a","(a|c)")
+   #define BS2 "\\\\"
    P2("*","2,1") P3("*","*","a,c") P3("*","*","b,c") P4("*","*","a","a,c") P4("*","*","a","b,c")      // 43..47: lists with different items
+   P3("*","*","a" BS2 "*") P3("*","*","x" BS2 ",a") P3("*","*","a" BS2) P4("*","*","a","a" BS2 "*") P3("*","0","a" BS2 "*")      // 48..52: an escaped backslash before a real wildcard / a list comma
 }
 struct Universe {std::vector<int> codes[3]; std::vector<int> menu; int maxp;};
 static bool GetUniverse(const std::string & name, Universe & u)
 {
-   static const int core[] = {1, 3, 4, 7, 9, 10, 13, 16, 21, 23, 27, 29, 32}; static const int lists[] = {5, 43, 44, 45, 13, 46, 47};
+   static const int core[] = {1, 3, 4, 7, 9, 10, 13, 16, 21, 23, 27, 29, 32}; static const int lists[] = {5, 43, 44, 45, 13, 46, 47}; static const int bs[] = {48, 49, 50, 7, 51, 52};
    std::vector<int> all25, four, zero, coreMenu(core, core+13), fullMenu;
    for (int i=0; i<25; i++) all25.push_back(i);
    four.push_back(0); four.push_back(1); four.push_back(5); four.push_back(6); zero.push_back(0);
    for (size_t i=1; i<=g_menu.size(); i++) fullMenu.push_back((int) i);
    if (name == "core") {u.codes[0] = all25; u.codes[1] = four;  u.codes[2] = zero; u.menu = coreMenu; u.maxp = 2; return true;}
+   if (name == "bs") {static const int c0[] = {1, 6, 21}, c1[] = {0, 6}; u.codes[0].assign(c0, c0+3); u.codes[1].assign(c1, c1+2); u.codes[2] = zero; u.menu.assign(bs, bs+6); u.maxp = 2; return true;}
    if (name == "lists") {static const int c0[] = {5, 21}, c1[] = {1, 21}, c2[] = {1, 5}; u.codes[0].assign(c0, c0+2); u.codes[1].assign(c1, c1+2); u.codes[2].assign(c2, c2+2); u.menu.assign(lists, lists+7); u.maxp = 3; return true;}
    if (name == "full") {u.codes[0] = all25; u.codes[1] = all25; u.codes[2] = zero; u.menu = fullMenu; u.maxp = 2; return true;}
    if (name == "tri")  {u.codes[0] = all25; u.codes[1] = four;  u.codes[2] = four; u.menu = coreMenu; u.maxp = 3; return true;}
@@ -310,12 +317,12 @@ struct Net
 // the clause table as the real StringMatcher sees it: one row per (token, level)
 static mj::Value ClauseTable(const World & w, int nsess)
 {
-   static const char * lv0[] = {"*", "h"}; static const char * lv1[] = {"*", "0", "1", "2", "3", "1,0", "<0-1>", "~0", "2,1"}; static const char * lv2[] = {"*", "a", "b", "\\a", "?", "(a|c)", "b,a", "~a", "b,\\a", "a,c", "b,c"};
+   static const char * lv0[] = {"*", "h"}; static const char * lv1[] = {"*", "0", "1", "2", "3", "1,0", "<0-1>", "~0", "2,1"}; static const char * lv2[] = {"*", "a", "b", "\\a", "?", "(a|c)", "b,a", "~a", "b,\\a", "a,c", "b,c", "a\\\\", "a\\\\*", "x\\\\,a"};
    mj::Value rows = mj::Value::Arr();
    for (int lvl=0; lvl<3; lvl++)
    {
-      const char ** toks = (lvl == 0) ? lv0 : ((lvl == 1) ? lv1 : lv2); const int nt = (lvl == 0) ? 2 : ((lvl == 1) ? 9 : 11);
-      SV names; if (lvl == 0) names.push_back("h"); else if (lvl == 1) {for (int i=0; i<nsess; i++) {char c[2] = {(char)('0'+i), 0}; names.push_back(c);}} else {names.push_back("a"); names.push_back("b");}
+      const char ** toks = (lvl == 0) ? lv0 : ((lvl == 1) ? lv1 : lv2); const int nt = (lvl == 0) ? 2 : ((lvl == 1) ? 9 : 14);
+      SV names; if (lvl == 0) names.push_back("h"); else if (lvl == 1) {for (int i=0; i<nsess; i++) {char c[2] = {(char)('0'+i), 0}; names.push_back(c);}} else {names.push_back("a"); names.push_back(g_second);}
       for (int t=0; t<nt; t++)
       {
          const std::string tok = toks[t];
@@ -346,7 +353,7 @@ struct TravStats {long cases, nonempty, multi, visits, known, lookupish; TravSta
 static int g_cur[3] = {-1, -1, -1}, g_curDv = -1;
 static void BuildTree(Net & net, const Case & c)
 {
-   static const char * nm[] = {"a", "b"};
+   const char * nm[] = {"a", g_second.c_str()};
    for (int s=0; s<3; s++)
    {
       if ((g_cur[s] == c.codes[s])&&(g_curDv == c.dv)) continue;
@@ -400,6 +407,7 @@ static int MainTrav(int argc, char ** argv)
 {
    if (argc < 7) return 2;
    const std::string fam = argv[2];
+   if (fam == "bs") g_second = "a\\";
    Net net; net.Open(3);
    TravStats st; mj::Value files = mj::Value::Arr();
    if (fam == "wide")
